@@ -60,6 +60,12 @@ def source(attrs):
 #[cfg(target_os = "d")]
 pub struct GTwin {{ pub from_d: u32 }}
 #[typeshare]
+#[cfg(any(target_os = "a", target_os = "b"))]
+pub struct NHost {{ pub keep: u32, {ai} pub gnested: u32 }}
+#[typeshare]
+#[cfg(any(target_os = "c", not(target_os = "d")))]
+pub enum NHostE {{ Keep, {ai} GNestedVariant }}
+#[typeshare]
 pub enum HostEnum {{ Keep, {ai} GVariant }}
 #[typeshare]
 pub struct HostStruct {{ pub keep: u32, {ai} pub gfield: u32 }}
@@ -88,6 +94,11 @@ def presence(res):
     twins = [s_ for s_ in pd.get("structs", []) if s_["id"]["original"] == "GTwin"]
     out["twin"] = any(f["id"]["original"] == "from_guarded" for s_ in twins for f in s_["fields"])
     out["twin2"] = any(f["id"]["original"] == "from_d" for s_ in twins for f in s_["fields"])
+    # members of a host that carries a guard of its own: where the host is kept, each member is judged by ITS guard and the full target list
+    if "NHost" in structs:
+        out["nested_field"] = any(f["id"]["original"] == "gnested" for f in structs["NHost"]["fields"])
+    if "NHostE" in enums:
+        out["nested_variant"] = any(v["id"]["original"] == "GNestedVariant" for v in enums["NHostE"]["variants"])
     if "HostEnum" in enums:
         out["variant"] = any(v["id"]["original"] == "GVariant" for v in enums["HostEnum"]["variants"])
     if "HostStruct" in structs:
